@@ -673,3 +673,131 @@ Proof.
   intros gen o Hgen Ho Hc.
   rewrite (decode_encode gen o Hgen Ho), (view_obj_canon o Hc). reflexivity.
 Qed.
+
+(* ---- examples ----------------------------------------------------------------------------------- *)
+(* One attribute of every kind; 0x40000211 = CKA_WRAP_TEMPLATE, 0x40000600 = CKA_ALLOWED_MECHANISMS. *)
+Definition ex_obj : cobj :=
+  [ (0, CULong 3);
+    (1, CBool true);
+    (3, CBytes [97; 98; 99]);
+    (1073742353, CMap [ (1, MBool false); (3, MBytes [1; 2]); (256, MULong 31);
+                        (1073743360, MMechs [1; 4231]) ]);
+    (1073743360, CMechs [1; 4231]) ].
+
+Example ex_obj_wf : (wf_obj ex_obj, canon_obj ex_obj) = (true, true).
+Proof. vm_compute. reflexivity. Qed.
+
+Example ex_roundtrip : decode_obj (encode_obj 7 ex_obj) = Some (7, ex_obj).
+Proof. vm_compute. reflexivity. Qed.
+
+(* Eval vm_compute in (length (encode_obj 7 ex_obj)).            = 247
+   Eval vm_compute in (firstn 40 (encode_obj 7 ex_obj)).
+     = [0; 0; 0; 0; 0; 0; 0; 7;        generation 7
+        0; 0; 0; 0; 0; 0; 0; 0;        attribute type 0 (CKA_CLASS)
+        0; 0; 0; 0; 0; 0; 0; 2;        kind 2 = ULONG_ATTR
+        0; 0; 0; 0; 0; 0; 0; 3;        value 3
+        0; 0; 0; 0; 0; 0; 0; 1]        attribute type 1 (CKA_TOKEN); next: kind 1, byte 255 *)
+Example ex_first40 :
+  firstn 40 (encode_obj 7 ex_obj) =
+  [0; 0; 0; 0; 0; 0; 0; 7;  0; 0; 0; 0; 0; 0; 0; 0;  0; 0; 0; 0; 0; 0; 0; 2;
+   0; 0; 0; 0; 0; 0; 0; 3;  0; 0; 0; 0; 0; 0; 0; 1].
+Proof. vm_compute. reflexivity. Qed.
+
+(* the nested map: ... type 0x40000211, kind 4, len 107 = 17 + 26 + 24 + 40, then the entries *)
+Example ex_map_bytes :
+  firstn 41 (skipn 76 (encode_obj 7 ex_obj)) =
+  [0; 0; 0; 0; 64; 0; 2; 17;  0; 0; 0; 0; 0; 0; 0; 4;  0; 0; 0; 0; 0; 0; 0; 107;
+   0; 0; 0; 0; 0; 0; 0; 1;  0; 0; 0; 0; 0; 0; 0; 1;  0].
+Proof. vm_compute. reflexivity. Qed.
+
+(* which prefixes of the 247-byte encoding are accepted, and with how many attributes:
+   cuts 8..15 -> 0 attributes, 32..39 -> 1, 49..56 -> 2, 76..83 -> 3, 207..214 -> 4, 247 -> 5,
+   every other cut >= 8 is rejected (cuts < 8: see [refresh_file_short]). *)
+Example ex_prefixes :
+  map (fun n => match decode_obj (firstn n (encode_obj 7 ex_obj)) with
+                | Some (_, o) => Some (length o) | None => None end)
+      [7; 8; 15; 16; 31; 32; 39; 40; 48; 49; 56; 57; 75; 76; 83; 84; 206; 207; 214; 215; 246; 247]%nat
+  = [None; Some 0; Some 0; None; None; Some 1; Some 1; None; None; Some 2; Some 2; None; None;
+     Some 3; Some 3; None; None; Some 4; Some 4; None; None; Some 5]%nat.
+Proof. vm_compute. reflexivity. Qed.
+
+(* file order vs. container view: a repeated top-level type (last wins), a repeated key in a map
+   (first wins), an unsorted mechanism list with a duplicate *)
+Example ex_view :
+  view_obj [ (5, CULong 1); (2, CMechs [9; 4; 9]); (5, CULong 2);
+             (7, CMap [ (3, MBool true); (1, MULong 0); (3, MBool false) ]) ]
+  = [ (2, CMechs [4; 9]); (5, CULong 2); (7, CMap [ (1, MULong 0); (3, MBool true) ]) ].
+Proof. vm_compute. reflexivity. Qed.
+
+(* A duplicate inside a NESTED mechanism set breaks the reader's length accounting (it subtracts
+   8 + 8 * |std::set|, the writer of such a list would have counted every element): rejected. *)
+Example ex_nested_dup_rejected :
+  decode_obj (encode_obj 1 [ (7, CMap [ (3, MMechs [9; 9]) ]) ]) = None.
+Proof. vm_compute. reflexivity. Qed.
+
+(* An object file written by the REAL library (libsofthsm2.so built from /repo, file backend):
+   C_GenerateKey(CKM_AES_KEY_GEN) of a token object with CKA_WRAP_TEMPLATE = {CKA_CLASS,
+   CKA_KEY_TYPE, CKA_EXTRACTABLE, CKA_LABEL} and CKA_ALLOWED_MECHANISMS = {CKM_AES_CBC,
+   CKM_AES_ECB, CKM_AES_KEY_WRAP}; 777 bytes, 32 attributes.  The decoder accepts it, the result
+   is well formed and canonical, and the encoder reproduces the file byte for byte.
+   (On the same library build, truncating this file to 705..712, 729..736 bytes or appending 5
+   stray bytes leaves the object loadable; 704, 713..728, or 8 appended bytes make it disappear;
+   files of 0..15 bytes load as an object without attributes; 16 bytes does not load — all as
+   [decode_obj]/[refresh_file] predict.) *)
+Definition real_file : bytes :=
+  [
+    0; 0; 0; 0; 0; 0; 0; 35; 0; 0; 0; 0; 0; 0; 0; 0; 0; 0; 0; 0; 0; 0; 0; 2; 0; 0; 0; 0; 0; 0;
+    0; 4; 0; 0; 0; 0; 0; 0; 0; 1; 0; 0; 0; 0; 0; 0; 0; 1; 255; 0; 0; 0; 0; 0; 0; 0; 2; 0; 0; 0;
+    0; 0; 0; 0; 1; 0; 0; 0; 0; 0; 0; 0; 0; 3; 0; 0; 0; 0; 0; 0; 0; 3; 0; 0; 0; 0; 0; 0; 0; 0; 0;
+    0; 0; 0; 0; 0; 0; 17; 0; 0; 0; 0; 0; 0; 0; 3; 0; 0; 0; 0; 0; 0; 0; 16; 38; 179; 73; 227; 48;
+    70; 235; 116; 120; 184; 246; 28; 167; 161; 122; 231; 0; 0; 0; 0; 0; 0; 0; 134; 0; 0; 0; 0;
+    0; 0; 0; 1; 0; 0; 0; 0; 0; 0; 0; 0; 144; 0; 0; 0; 0; 0; 0; 0; 3; 0; 0; 0; 0; 0; 0; 0; 3; 89;
+    62; 75; 0; 0; 0; 0; 0; 0; 1; 0; 0; 0; 0; 0; 0; 0; 0; 2; 0; 0; 0; 0; 0; 0; 0; 31; 0; 0; 0; 0;
+    0; 0; 1; 2; 0; 0; 0; 0; 0; 0; 0; 3; 0; 0; 0; 0; 0; 0; 0; 0; 0; 0; 0; 0; 0; 0; 1; 3; 0; 0; 0;
+    0; 0; 0; 0; 1; 0; 0; 0; 0; 0; 0; 0; 1; 4; 0; 0; 0; 0; 0; 0; 0; 1; 255; 0; 0; 0; 0; 0; 0; 1;
+    5; 0; 0; 0; 0; 0; 0; 0; 1; 255; 0; 0; 0; 0; 0; 0; 1; 6; 0; 0; 0; 0; 0; 0; 0; 1; 255; 0; 0;
+    0; 0; 0; 0; 1; 7; 0; 0; 0; 0; 0; 0; 0; 1; 255; 0; 0; 0; 0; 0; 0; 1; 8; 0; 0; 0; 0; 0; 0; 0;
+    1; 255; 0; 0; 0; 0; 0; 0; 1; 10; 0; 0; 0; 0; 0; 0; 0; 1; 255; 0; 0; 0; 0; 0; 0; 1; 12; 0; 0;
+    0; 0; 0; 0; 0; 1; 0; 0; 0; 0; 0; 0; 0; 1; 16; 0; 0; 0; 0; 0; 0; 0; 3; 0; 0; 0; 0; 0; 0; 0;
+    0; 0; 0; 0; 0; 0; 0; 1; 17; 0; 0; 0; 0; 0; 0; 0; 3; 0; 0; 0; 0; 0; 0; 0; 0; 0; 0; 0; 0; 0;
+    0; 1; 97; 0; 0; 0; 0; 0; 0; 0; 2; 0; 0; 0; 0; 0; 0; 0; 16; 0; 0; 0; 0; 0; 0; 1; 98; 0; 0; 0;
+    0; 0; 0; 0; 1; 0; 0; 0; 0; 0; 0; 0; 1; 99; 0; 0; 0; 0; 0; 0; 0; 1; 255; 0; 0; 0; 0; 0; 0; 1;
+    100; 0; 0; 0; 0; 0; 0; 0; 1; 255; 0; 0; 0; 0; 0; 0; 1; 101; 0; 0; 0; 0; 0; 0; 0; 1; 0; 0; 0;
+    0; 0; 0; 0; 1; 102; 0; 0; 0; 0; 0; 0; 0; 2; 0; 0; 0; 0; 0; 0; 16; 128; 0; 0; 0; 0; 0; 0; 1;
+    112; 0; 0; 0; 0; 0; 0; 0; 1; 255; 0; 0; 0; 0; 0; 0; 1; 113; 0; 0; 0; 0; 0; 0; 0; 1; 255; 0;
+    0; 0; 0; 0; 0; 1; 114; 0; 0; 0; 0; 0; 0; 0; 1; 255; 0; 0; 0; 0; 0; 0; 2; 16; 0; 0; 0; 0; 0;
+    0; 0; 1; 0; 0; 0; 0; 0; 64; 0; 2; 17; 0; 0; 0; 0; 0; 0; 0; 4; 0; 0; 0; 0; 0; 0; 0; 91; 0; 0;
+    0; 0; 0; 0; 0; 0; 0; 0; 0; 0; 0; 0; 0; 2; 0; 0; 0; 0; 0; 0; 0; 4; 0; 0; 0; 0; 0; 0; 0; 3; 0;
+    0; 0; 0; 0; 0; 0; 3; 0; 0; 0; 0; 0; 0; 0; 2; 119; 107; 0; 0; 0; 0; 0; 0; 1; 0; 0; 0; 0; 0;
+    0; 0; 0; 2; 0; 0; 0; 0; 0; 0; 0; 31; 0; 0; 0; 0; 0; 0; 1; 98; 0; 0; 0; 0; 0; 0; 0; 1; 0; 0;
+    0; 0; 0; 64; 0; 2; 18; 0; 0; 0; 0; 0; 0; 0; 4; 0; 0; 0; 0; 0; 0; 0; 0; 0; 0; 0; 0; 64; 0; 6;
+    0; 0; 0; 0; 0; 0; 0; 0; 5; 0; 0; 0; 0; 0; 0; 0; 3; 0; 0; 0; 0; 0; 0; 16; 129; 0; 0; 0; 0; 0;
+    0; 16; 130; 0; 0; 0; 0; 0; 0; 33; 9
+  ].
+
+Example real_file_decodes :
+  match decode_obj real_file with
+  | Some (g, o) =>
+      (g, length o, wf_obj o, canon_obj o, bytes_eqb (encode_obj g o) real_file,
+       filter (fun p => match snd p with CMap _ | CMechs _ => true | _ => false end) o)
+  | None => (0, 0%nat, false, false, false, [])
+  end
+  = (35, 32%nat, true, true, true,
+     [ (1073742353, CMap [ (0, MULong 4); (3, MBytes [119; 107]); (256, MULong 31);
+                           (354, MBool false) ]);
+       (1073742354, CMap []);
+       (1073743360, CMechs [4225; 4226; 8457]) ]).
+Proof. vm_compute. reflexivity. Qed.
+
+(* ---- assumptions -------------------------------------------------------------------------------- *)
+Print Assumptions be8_length.
+Print Assumptions be8_decode_be8.
+Print Assumptions decode_encode.
+Print Assumptions decode_encode_junk.
+Print Assumptions decode_obj_None.
+Print Assumptions decode_prefix_attr.
+Print Assumptions decode_prefix_reject.
+Print Assumptions view_obj_canon.
+Print Assumptions decode_encode_view.
+Print Assumptions ex_roundtrip.
+Print Assumptions real_file_decodes.
